@@ -28,6 +28,10 @@ class Control(BaseException):
     ``except Exception`` cannot swallow them; bare ``except:`` is handled by the loader)."""
 
 
+class NonDeterminism(Control):
+    """the harness took a different symbolic branch on re-execution (engine soundness rule 3)"""
+
+
 class PathAbort(Control):
     """Current path is infeasible / excluded by an assumption."""
 
@@ -109,7 +113,7 @@ class Ctx:
         return v
 
     def _site(self):
-        f = sys._getframe(2)
+        f = sys._getframe(1)
         here = __file__.rsplit("/", 1)[0]
         while f is not None and f.f_code.co_filename.startswith(here):
             f = f.f_back
@@ -117,16 +121,22 @@ class Ctx:
             return "?"
         return "%s:%d" % (f.f_code.co_filename.rsplit("/", 1)[-1], f.f_lineno)
 
-    def branch(self, cond):
-        """Decide a symbolic condition; forks when both outcomes are feasible."""
+    def branch(self, cond, tag=None):
+        """Decide a symbolic condition; forks when both outcomes are feasible.  A decision is recorded
+        as (outcome, tag, hash-of-condition); `tag` carries the concrete value chosen by value
+        enumerations (__index__) so that re-execution rebuilds exactly the same condition."""
         cond = z3.simplify(cond)
         if z3.is_true(cond):
             return True
         if z3.is_false(cond):
             return False
         self.tick()
+        h = self._site()  # determinism witness: the code location deciding (term hashes are not stable under simplify)
         if self.pos < len(self.prefix):
-            d = self.prefix[self.pos]
+            d, _tag, h0 = self.prefix[self.pos]
+            if h0 is not None and h0 != h:
+                self.flag = "error"
+                raise NonDeterminism("branch %d decided at %s on re-execution, at %s originally" % (self.pos, h, h0))
             self.pos += 1
             self.add(cond if d else z3.Not(cond))
             return d
@@ -141,12 +151,8 @@ class Ctx:
             if r == "unknown":
                 self.flag = "unknown"
                 raise Unsupported("solver unknown at branch")
-            if r == "sat":
-                can_t = True
-                mt = self.solver.model()
-            else:
-                can_t = False
-                mt = None
+            can_t = r == "sat"
+            mt = self.solver.model() if can_t else None
             r = self.check(z3.Not(cond))
             if r == "unknown":
                 self.flag = "unknown"
@@ -170,10 +176,9 @@ class Ctx:
             can_t = r == "sat"
             mt = self.solver.model() if can_t else None
         if can_t and can_f:
-            self.pending.append(self.prefix[: self.pos] + [False])
+            self.pending.append(self.prefix[: self.pos] + [(False, tag, h)])
             d = True
-            s = self._site()
-            self.fork_sites[s] = self.fork_sites.get(s, 0) + 1
+            self.fork_sites[h] = self.fork_sites.get(h, 0) + 1
         elif can_t:
             d = True
         elif can_f:
@@ -181,12 +186,18 @@ class Ctx:
         else:
             self.flag = "infeasible"
             raise PathAbort("infeasible")
-        self.prefix = self.prefix[: self.pos] + [d]
+        self.prefix = self.prefix[: self.pos] + [(d, tag, h)]
         self.pos += 1
         self.solver.add(cond if d else z3.Not(cond))
         self.pc_size += 1
         self.model = mt if d else mf
         return d
+
+    def replay_tag(self):
+        """tag recorded for the next decision when re-executing a prefix (else None)"""
+        if self.pos < len(self.prefix):
+            return self.prefix[self.pos][1]
+        return None
 
     def get_model(self):
         if self.model is None:
@@ -546,16 +557,20 @@ class SymInt:
         return hash(self.__index__())
 
     def __index__(self):
-        """Concretise by forking over all feasible values (bounded by 64)."""
-        self._mat()
+        """Concretise by forking over all feasible values (bounded by 64 per call)."""
+        t = z3.simplify(self.t)
+        if z3.is_bv_value(t):
+            return t.as_signed_long() if self.s else t.as_long()
         for _ in range(64):
-            m = CTX.get_model()
-            if m is None:
-                CTX.flag = "infeasible"
-                raise PathAbort("infeasible")
-            v = m.eval(self.t, model_completion=True)
-            val = v.as_signed_long() if self.s else v.as_long()
-            if CTX.branch(self.t == v):
+            val = CTX.replay_tag()
+            if val is None:
+                m = CTX.get_model()
+                if m is None:
+                    CTX.flag = "infeasible"
+                    raise PathAbort("infeasible")
+                v = m.eval(t, model_completion=True)
+                val = v.as_signed_long() if self.s else v.as_long()
+            if CTX.branch(t == z3.BitVecVal(val, self.w), tag=val):
                 return val
         CTX.flag = "unsupported"
         raise Unsupported("more than 64 feasible values at __index__ (%s)" % CTX._site())
